@@ -24,6 +24,9 @@ pub fn strategy() -> BoxedStrategy<Case> {
         1 => Just(json!(["jsu9yVulwQQlhFlM_3JlzMaSFzglhQG0DpfayQwLUK4"])),
         1 => Just(json!("jsu9yVulwQQlhFlM_3JlzMaSFzglhQG0DpfayQwLUK4")),
         1 => Just(json!([])),
+        // values in customary formats (IRIs, dates, booleans as strings): a reserved NAME is
+        // refused whatever its value looks like
+        1 => proptest::sample::select(vec![json!("https://www.w3.org/2018/credentials/v1"), json!("did:example:123"), json!("urn:uuid:6c5c0a49-b589-431d-bae7-219122a9ec2c"), json!("http://schema.org/"), json!("2012-04-23T18:25:43Z"), json!("true"), json!({"@id": "ex:sd"}), json!(true), json!(0)]),
         1 => Just(json!(null)),
     ];
     (issue_spec_strategy(ClaimCfg::LIGHT, HONEST_PATHS, Just(HolderKey::None).boxed()), value).prop_map(|(issue, value)| C13Case { issue, value }).boxed()
